@@ -733,6 +733,14 @@ func Len(val Value) (int, error) {
 
 // Equal returns true if the two Values are considered equal.
 func Equal(left Value, right Value) bool {
+	return equalAt(left, right, 0)
+}
+
+// maxEqualDepth bounds the comparison of nested lists and hashes: a container
+// may contain itself.
+const maxEqualDepth = 1000
+
+func equalAt(left Value, right Value, depth int) bool {
 	// TODO: Stop-gap for now, this will need to be much more sophisticated.
 	l, lc := container(left)
 	r, rc := container(right)
@@ -740,7 +748,7 @@ func Equal(left Value, right Value) bool {
 		// Lists and hashes have no string form (they all coerce to ""), which
 		// made every one of them equal to every other and contained in any list
 		// of lists: they are equal when their elements are.
-		return lc && rc && equalContainers(l, r)
+		return lc && rc && depth < maxEqualDepth && equalContainers(l, r, depth+1)
 	}
 	return CoerceString(left) == CoerceString(right)
 }
@@ -760,14 +768,14 @@ func container(v Value) (reflect.Value, bool) {
 	return r, false
 }
 
-func equalContainers(l, r reflect.Value) bool {
+func equalContainers(l, r reflect.Value, depth int) bool {
 	lm, rm := l.Kind() == reflect.Map, r.Kind() == reflect.Map
 	if lm != rm || l.Len() != r.Len() {
 		return false
 	}
 	if !lm {
 		for i := 0; i < l.Len(); i++ {
-			if !Equal(l.Index(i).Interface(), r.Index(i).Interface()) {
+			if !equalAt(l.Index(i).Interface(), r.Index(i).Interface(), depth) {
 				return false
 			}
 		}
@@ -778,7 +786,7 @@ func equalContainers(l, r reflect.Value) bool {
 	}
 	for iter := l.MapRange(); iter.Next(); {
 		other := r.MapIndex(iter.Key())
-		if !other.IsValid() || !Equal(iter.Value().Interface(), other.Interface()) {
+		if !other.IsValid() || !equalAt(iter.Value().Interface(), other.Interface(), depth) {
 			return false
 		}
 	}
